@@ -22,6 +22,7 @@ META = {
 }
 META["explanation"] += " R04.3 (value and marked version under one guard) is evaluated here for the clause 'never suspended over an unobserved update'."
 META["explanation"] += ' Shared with C01: R01.1 (every mutable access to the value reaches the notify function on every path - a "no subscribers" fast path that stores without notifying loses the wake-up of a subscriber it did not see) and R01.13.'
+META["explanation"] += ' The poll typestate (R02.7) runs on bodies in which combinators with closures are rewritten into branches (a `Pending` passed as the default of `map_or` is seen) and has a clause for locally owned inputs: a future that lives in a local of the poll function (created there, or taken out of self) and is left Pending must be stored back before a Pending return - dropping it drops the waker registration.'
 
 NEXT = r"(^|::)Iterator(>)?::next$|^<.* as std::iter::Iterator>::next$"
 
@@ -71,6 +72,8 @@ def r02_3(ctx, wake_fn):
             where = b.line_at((blk, 10 ** 6))
             if shrink:
                 ctx.violated("R02.3", wake_fn, "wake-all", where, "the wake helper iterates `%s`: some parked wakers are never woken" % fmt(shrink[0], 4))
+            elif len(t["args"]) > 1 and t["args"][1].get("k") == "const" and re.search(r"^std::task::Waker::wake$", str(t["args"][1].get("fn") or "")) and contains(it, lambda x: x[0] == "param" and x[1] == 1):
+                ctx.holds("R02.3", wake_fn, "wake-all", where, "into_iter(param).for_each(Waker::wake): every item is woken")
             elif cl and contains(it, lambda x: x[0] == "param" and x[1] == 1):
                 cb = cl[0].built
                 wk = cb.calls(r"^std::task::Waker::wake$")
